@@ -7,7 +7,7 @@ PROPS = {"C11": "model_checking"}
 
 PROP_INVS = {
     "C11": ["C11_NextAsFresh", "C11_KafkaErrKeepsOpen", "C11_ErrorReported", "C11_FailedStaysFailed", "C11_NoSpuriousNoProgress",
-            "C11_TransportErrorCloses", "C11_StallIsError", "C11_WrongIdIsError", "C17_NoPanicNoHang"],
+            "C11_TransportErrorCloses", "C11_StallIsError", "C11_WrongIdIsError", "C11_FragmentsAsWhole", "C17_NoPanicNoHang"],
     "C06": ["C06_OwnResponse", "C06_UniqueIds", "C06_SharedBuffersClean", "C17_NoPanicNoHang"],
     "C17": ["C17_CutIsError", "C17_NoPanicNoHang", "C11_FailedStaysFailed", "C06_OwnResponse", "C11_TransportErrorCloses"],
 }
@@ -106,6 +106,125 @@ def c11_scripts(tier):
                 {"o": 1, "g": 1, "kind": k1, "arg": a1, "fault": {"err": 6, "field": "partition", "report": True}},
                 {"o": 2, "g": 1, "kind": "offsetAt", "arg": 7, "fault": {"err": 3, "field": "partition", "report": True}},
                 {"o": 3, "g": 1, "kind": "partitions", "arg": 2}]})
+    # the response-level error code of Fetch v7+ (the Conn negotiates v10): empty topic array behind it, or partition data
+    for code in codes:
+        for fld in ("top", "top+data"):
+            for (k2, a2) in op2s:
+                if k2 not in ("fetch", "produce"):
+                    out.append({"id": "c11-fetch-v10-%s-e%d-%s%d" % (fld.replace("+", ""), code, k2, a2), "kind": "c11", "versions": vers(fetch=10), "report": True, "ops": [
+                        {"o": 1, "g": 1, "kind": "fetch", "arg": 2, "fault": {"err": code, "field": fld, "report": True}},
+                        {"o": 2, "g": 1, "kind": k2, "arg": a2}, {"o": 3, "g": 1, "kind": "fetch", "arg": 4}]})
+    return out
+
+
+# --- fragmented fetch responses ------------------------------------------------------------------------------------------
+# Records whose fields need varints of two and three bytes (the default data has one-byte lengths only): lengths of
+# records / keys / values / header keys / header values >= 64 and >= 8192, header counts >= 64, offset deltas >= 64 and
+# >= 8192 (a compacted log; the timestamps follow the offsets, so their deltas take three and four bytes), null keys and
+# values next to them.  One list per batch; a record is (offset, key length, value length[, headers, header key length,
+# header value length]); -1 = null.
+def _recs(*bs):
+    return [[dict(zip(("off", "k", "v", "hn", "hk", "hv"), r)) for r in b] for b in bs]
+
+
+SHAPES = {
+    "v70": _recs([(0, -1, 70), (1, 2, 100)]),
+    "k70": _recs([(0, 70, 5), (1, 64, -1), (2, 130, 63)]),
+    "gap": _recs([(0, 2, 5), (70, 2, 5), (71, 2, 64), (9000, 2, 5)], [(9001, 3, 3), (9100, 3, 3)]),
+    "hdr": _recs([(0, 2, 5, 2, 70, 200), (1, 2, 5, 70, 1, 1), (2, 1, 1, 1, 3, -1)]),
+    "mix": _recs([(0, 5, 63), (1, 64, 64), (2, -1, 200), (3, 3, 7)], [(4, 3, 127), (5, 3, 128), (6, 200, 3), (7, 3, 300)],
+                 [(8, 1, 1), (9, 70, 70), (10, 2, 2), (11, 2, 90)]),
+    "v9k": _recs([(0, 2, 9000), (1, 2, 70)], [(2, 9, 8200), (3, 8200, 70, 1, 3, 8300)]),
+}
+SMALL = ("v70", "k70", "gap", "hdr")
+FETCH_HDR = {2: 41, 5: 61, 10: 67}   # frame bytes before the record set (topic "t"): the record area starts here
+PROBES2 = [("lastOffset", 0), ("offsetAt", 5), ("partitions", 3), ("firstOffset", 0)]
+
+
+def frag_id(shape, codec, fv):
+    return "c11fragprobe-%s-c%d-v%d" % (shape, codec, fv)
+
+
+def c11_fragment_probe_scripts(tier):
+    out = []
+    for shape in SHAPES:
+        for codec in (0, 1, 2, 3, 4):
+            for fv in (2, 5, 10):
+                out.append({"id": frag_id(shape, codec, fv), "kind": "c17", "versions": vers(fetch=fv), "codec": codec, "report": False,
+                            "data": SHAPES[shape], "ops": [{"o": 1, "g": 1, "kind": "fetch", "arg": 0}]})
+    return out
+
+
+def c11_fragment_scripts(tier, seed, lens):
+    """Fetch responses that arrive complete but in pieces, then the probe "the next operation behaves as on a fresh
+    connection" -- by the same goroutine, and by a second one whose request is pipelined behind the fragmented response."""
+    rng = random.Random(seed * 7919 + 11)
+    quick = tier == "quick"
+    out = []
+    n = [0]
+
+    def add(shape, codec, fv, fault, tag, k1="fetch", arg=0, pipelined=False):
+        n[0] += 1
+        k2, a2 = PROBES2[n[0] % len(PROBES2)]
+        sid = "c11-frag-%s-c%d-v%d-%s%s%s" % (shape, codec, fv, tag, "" if k1 == "fetch" and arg == 0 else "-%s%d" % (k1, arg), "-pipe" if pipelined else "")
+        base = {"id": sid, "versions": vers(fetch=fv), "codec": codec, "report": False, "data": SHAPES[shape]}
+        if pipelined:
+            f = dict(fault)
+            f["holdRest"] = True
+            base.update({"kind": "c11p", "ops": [{"o": 1, "g": 1, "kind": k1, "arg": arg, "fault": f},
+                                                 {"o": 2, "g": 2, "kind": k2, "arg": a2, "afterPiece": 1},
+                                                 {"o": 3, "g": 1, "kind": "brokers", "arg": 0}]})
+        else:
+            base.update({"kind": "c11", "ops": [{"o": 1, "g": 1, "kind": k1, "arg": arg, "fault": dict(fault)},
+                                                {"o": 2, "g": 1, "kind": k2, "arg": a2},
+                                                {"o": 3, "g": 1, "kind": "fetch", "arg": 0}]})
+        for op in base["ops"]:
+            # nothing here is meant to time out: a deadline far beyond any scheduling delay of a loaded machine (the
+            # baseline on a fresh connection runs under the same one)
+            op["deadlineMs"] = 3000
+        out.append(base)
+
+    for shape in SHAPES:
+        for codec in (0, 1, 2, 3, 4):
+            for fv in (2, 5, 10):
+                total = lens.get(frag_id(shape, codec, fv))
+                if not total:
+                    continue
+                start = FETCH_HDR[fv]
+                area = list(range(start, total))
+                small = shape in SMALL and codec == 0
+                lead = fv == 10 or (fv == 2 and codec in (2, 4))      # quick: the other versions get a thin sample
+                # one split.  thorough: every position of the record area of the small uncompressed responses, a seeded
+                # sample of the others; quick: every position for one of them, seeded samples
+                if not quick:
+                    ks = area if small else sorted(rng.sample(area, min(len(area), 200 if codec == 0 else 30)))
+                elif shape == "v70" and codec == 0 and fv == 10:
+                    ks = area
+                elif codec == 0:
+                    ks = sorted(rng.sample(area, (20 if small else 8) if fv == 10 else 6))
+                else:
+                    ks = sorted(rng.sample(area, 2 if lead else 0))
+                for j, k in enumerate(ks):
+                    add(shape, codec, fv, {"splits": [k]}, "k%d" % k)
+                    if (not quick and small and j % 2 == 0) or j % 4 == 1:
+                        add(shape, codec, fv, {"splits": [k]}, "k%d" % k, pipelined=True)
+                if quick and not lead:
+                    continue
+                # several splits; the whole record area (or the whole frame) in pieces of 1, 2, 3, ... bytes
+                for r in range((2 if codec == 0 else 1) if quick else 6):
+                    sp = sorted(rng.sample(area, min(len(area), rng.choice((2, 3, 5)))))
+                    add(shape, codec, fv, {"splits": sp}, "s" + "_".join(map(str, sp)), pipelined=(r % 2 == 1))
+                pieces = ((1, start), (2, start), (3, start + 1), (7, 0)) if total < 1500 else ((37, start), (1000, 0), (4096, 8), (4095, start + 2))
+                for j, (pc, frm) in enumerate(pieces):
+                    if quick and codec != 0 and j % 2 == 1:
+                        continue
+                    add(shape, codec, fv, {"piece": pc, "from": frm}, "p%df%d" % (pc, frm), pipelined=(j % 2 == 1 and codec == 0))
+                # the batch left early (short buffer, one message, closed twice) and a fetch from inside the first batch
+                if not quick or (codec == 0 and fv == 10):
+                    for j, (k1, arg) in enumerate((("fetchPartial", 0), ("fetchShort", 0), ("fetchClose2", 0), ("fetch", 1))):
+                        k = rng.choice(area)
+                        add(shape, codec, fv, {"splits": [k]}, "k%d" % k, k1=k1, arg=arg, pipelined=(j == 3))
+                        add(shape, codec, fv, {"piece": 1 if total < 1500 else 61, "from": start}, "p1", k1=k1, arg=arg)
     return out
 
 
@@ -188,12 +307,25 @@ C17_OPS = [("lastOffset", 0, vers(), "listoffsets-v1"), ("partitions", 3, vers(m
            ("createTopics", 0, vers(), "createtopics-v2"), ("deleteTopics", 0, vers(), "deletetopics-v1"), ("controller", 0, vers(), "controller")]
 
 
+# Fetch responses that carry an error code: the header parser stops at the code and the rest of the frame is skipped, so a
+# connection lost inside that rest is a cut response like any other.  Partition-level codes under every fetch version the
+# Conn negotiates; the response-level code of Fetch v7+ (v10 here) with an empty topic array and with the partition data
+# left behind it (a longer tail).  (kind, arg, versions, tag, fault)
+C17_ERR_OPS = [("fetch", 3, vers(fetch=fv), "fetch-v%d-perr%d" % (fv, code), {"err": code, "field": "partition"})
+               for fv in (2, 5, 10) for code in (1, 6, 3)] + \
+              [("fetch", 3, vers(fetch=10), "fetch-v10-toperr%d%s" % (code, "d" if field == "top+data" else ""), {"err": code, "field": field})
+               for (code, field) in ((6, "top+data"), (1, "top+data"), (3, "top"), (1, "top"))]
+
+
 def c17_probe_scripts(tier):
     out = []
     for (k, a, vs, tag) in C17_OPS:
         for codec in ([0] if k != "fetch" else ([0, 2] if tier == "quick" else [0, 1, 2, 3, 4])):
             out.append({"id": "c17probe-%s-c%d" % (tag, codec), "kind": "c17", "versions": vs, "codec": codec, "report": False,
                         "ops": [{"o": 1, "g": 1, "kind": k, "arg": a}]})
+    for (k, a, vs, tag, fault) in C17_ERR_OPS:
+        out.append({"id": "c17probe-%s-c0" % tag, "kind": "c17", "versions": vs, "codec": 0, "report": False,
+                    "ops": [{"o": 1, "g": 1, "kind": k, "arg": a, "fault": dict(fault)}]})
     return out
 
 
@@ -214,6 +346,20 @@ def c17_scripts(tier, lens, seed):
                 out.append({"id": "c17-%s-c%d-k%d" % (tag, codec, cut), "kind": "c17", "versions": vs, "codec": codec, "report": False,
                             "ops": [{"o": 1, "g": 1, "kind": k, "arg": a, "fault": {"cut": cut}},
                                     {"o": 2, "g": 1, "kind": "offsetAt", "arg": 6}]})
+    # error-carrying fetch responses: every byte position (the frames are short), then what the Reader does after
+    # OffsetOutOfRange (list offsets) or another operation
+    n = 0
+    for (k, a, vs, tag, fault) in C17_ERR_OPS:
+        total = lens.get("c17probe-%s-c0" % tag)
+        if not total:
+            continue
+        for cut in range(0, total):
+            n += 1
+            f = dict(fault)
+            f["cut"] = cut
+            k2, a2 = (("firstOffset", 0), ("lastOffset", 0), ("offsetAt", 6), ("partitions", 3))[n % 4]
+            out.append({"id": "c17-%s-c0-k%d" % (tag, cut), "kind": "c17", "versions": vs, "codec": 0, "report": False,
+                        "ops": [{"o": 1, "g": 1, "kind": k, "arg": a, "fault": f}, {"o": 2, "g": 1, "kind": k2, "arg": a2}]})
     return out
 
 
@@ -407,7 +553,19 @@ def run_part(ctx, prop):
     cov.update(model_check(ctx, prop, tier))
     ctx.log("ConnMux MC ok: %d distinct states" % cov["states"])
     if prop == "C11":
-        scripts = c11_scripts(tier)
+        probes = c11_fragment_probe_scripts(tier)
+        ptr = run_scripts(ctx, probes, "fragprobe")
+        lens = {}
+        for sc, t in zip(probes, ptr):
+            for e in t:
+                if e.get("ev") == "reply" and e.get("o") == 1:
+                    lens[sc["id"]] = e["len"]
+        frag = c11_fragment_scripts(tier, seed, lens)
+        scripts = c11_scripts(tier) + frag
+        cov["fragmented_fetch_scenarios"] = len(frag)
+        cov["fragmented_fetch_pipelined"] = sum(1 for x in frag if x["kind"] == "c11p")
+        cov["fragmented_fetch_shapes"] = {k: [[(r["off"], r["k"], r["v"]) + ((r["hn"], r["hk"], r["hv"]) if "hn" in r else ()) for r in b] for b in v] for k, v in SHAPES.items()}
+        cov["fragmented_fetch_frames"] = {k[len("c11fragprobe-"):]: v for k, v in lens.items()}
     elif prop == "C06":
         scripts = c06_scripts(seed, 200 if tier == "quick" else 3000)
     else:
@@ -420,6 +578,7 @@ def run_part(ctx, prop):
                     lens[s["id"]] = e["len"]
         scripts = c17_scripts(tier, lens, seed) + c17_concurrent_scripts(tier)
         cov["cut_points"] = len(scripts)
+        cov["error_response_cut_points"] = sum(1 for x in scripts if x["ops"][0].get("fault", {}).get("err"))
         cov["frames"] = lens
     traces = run_scripts(ctx, scripts, "main")
     checked = monitor(ctx, scripts, traces, PROP_INVS[prop])
@@ -428,6 +587,9 @@ def run_part(ctx, prop):
                 "trace_events": sum(len(t) for t in traces), "divergence_count": len(divs), "divergences": divs[:10],
                 "invariants": PROP_INVS[prop],
                 "samples": [{"script": scripts[0]}, {"script": scripts[len(scripts) // 2]}, {"trace_tail": traces[-1][-8:]}]})
+    if prop == "C11" and frag:
+        pick = [x for x in frag if x["data"] is SHAPES["v70"]]
+        cov["samples"] += [{"script": pick[len(pick) // 3]}, {"script": [x for x in pick if x["kind"] == "c11p"][0]}]
     if divs:
         ctx.notes.append("DIVERGENCE: %d trace(s) of the real Conn are not behaviours of ConnMux.tla" % len(divs))
         print("DIVERGENCE property=%s traces=%d first=%s" % (prop, len(divs), json.dumps(divs[0])[:300]), flush=True)
